@@ -35,6 +35,10 @@ CLAIMED = {
     text='Symbolic execution of the real WorstCaseEvaluator / GradientEvaluator through Algorithm.evaluate over several consecutive batches with an uninterpreted objective, symbolic design vectors and tolerances: neighbour construction, the extra objective, cost-vector lengths after every batch for every design seen so far, call counts per batch, forward-difference quotient and work-list reset are SMT obligations (all objective functions, all tolerances).',
     note='dim<=2 quick / <=3 thorough, <=4 consecutive batches; reals for x+tol and the quotient; evaluate_scalar variants outside',
     ref='DESIGN.md section 5 C14'),
+ 'C15': dict(
+    text='Symbolic execution of every single-objective benchmark on an arbitrary point of its box: totality (no exception, one real cost) for all points; the bound clause "no point beats the documented optimum by more than 1e-3" is proved by z3 with sound lemma instances for Rosenbrock, Ackley, Sphere, Schwefel (Taylor enclosure, per-coordinate chaining), ModifiedEasom, EqualityConstr, Griewank, Perm, Rastrigin, SixHump, Zakharov, XinSheYang 1-3, Booth, Alpine; the optimum-value clause (no quantifier) is evaluated on the real code with Python and numpy floats. For Michalewicz, GramacyLee, Schubert and the Synthetic Gaussians the bound clause is reported undecided (only a refutation attempt is made).',
+    note='dimensions 1-3 quick / up to 5 thorough; floats as reals; transcendental functions as uninterpreted functions + true lemma instances; undecided clauses listed in the evidence',
+    ref='DESIGN.md section 5 C15'),
  'C16': dict(
     text='Symbolic execution of the real evaluate() of DTLZ1-4, ZDT1 and the bi-objective problem on an arbitrary point of the box with sin/cos/sqrt uninterpreted plus Pythagorean/range/quadrant lemmas; the defining identities (sum, norm, f2 formula, product) and non-negativity are polynomial obligations decided in NRA for every point of the box.',
     note='m<=4 quick / m<=5 thorough, dimension m+9; identities over the reals; lemma instances are true facts about sin/cos/sqrt, z3 + nlsat tactic trusted',
